@@ -340,10 +340,11 @@ done:
 
 func init() {
 	Register(&Scenario{
-		ID:        "C17",
-		Counts:    c17Counts,
-		Gen:       c17Gen,
-		NewParams: func() any { return &C17Params{} },
-		Run:       c17Run,
+		ID:              "C17",
+		BudgetIsVerdict: true,
+		Counts:          c17Counts,
+		Gen:             c17Gen,
+		NewParams:       func() any { return &C17Params{} },
+		Run:             c17Run,
 	})
 }
